@@ -73,6 +73,8 @@ type Sim struct {
 
 	// FaultEvents, if set, returns the fault events enabled now.
 	FaultEvents func() []SimEvent
+	// AfterStep hooks run at the start of every step, once the previous one has fully played out.
+	AfterStep []func()
 	// OnQuiescent monitors run when bus and actors are idle.
 	OnQuiescent []func()
 	// Observers of bus events (called under the world lock).
@@ -176,6 +178,11 @@ func (s *Sim) MixState(x uint64) { s.stateH = mix(s.stateH, x) }
 // Fail records the first violation of the run.
 func (s *Sim) Fail(prop, clause, format string, a ...any) {
 	if s.Viol != nil {
+		return
+	}
+	if isKnownClass(prop + "/" + clause) {
+		// an open, recorded finding (known_findings.json): counted, the run goes on
+		s.Probe("known-finding hit: " + prop + "/" + clause)
 		return
 	}
 	s.Viol = &Violation{Prop: prop, Clause: clause, Detail: fmt.Sprintf(format, a...), Step: s.Step}
@@ -309,6 +316,9 @@ func (s *Sim) noteSched(key string) {
 // enabled (the caller decides about time).
 func (s *Sim) StepOnce(random bool) bool {
 	s.quiesce()
+	for _, f := range s.AfterStep {
+		f()
+	}
 	if s.Viol != nil {
 		return false
 	}
